@@ -68,6 +68,15 @@ func (t *RTPTransceiver) SetCodecPreferences(codecs []RTPCodecParameters) error 
 	return nil
 }
 
+// hasCodecPreferences reports whether codec preferences are set, by the user
+// or from the remote media section the transceiver was created for.
+func (t *RTPTransceiver) hasCodecPreferences() bool {
+	t.mu.RLock()
+	defer t.mu.RUnlock()
+
+	return len(t.codecs) != 0
+}
+
 // getCodecs returns list of supported codecs.
 func (t *RTPTransceiver) getCodecs() []RTPCodecParameters {
 	t.mu.RLock()
